@@ -342,3 +342,38 @@ def f4_cxx(ctx, L):
 
 def nows_(s):
     return re.sub(r'\s+', '', s or '')
+
+
+def generators_read_only(ctx, L):
+    """The back-ends only read the model: the same node objects are handed to every generator of the run (and, for included
+    files, to every includer), so a generator that writes an attribute of a node changes what the next generator sees."""
+    model_attrs = ('padding', 'byte_size', 'alignment', 'kind', 'size', 'bound', 'numeric_size', 'definition', 'type_name', 'name',
+                   'members', 'optional', 'greedy', 'value', 'discriminator')
+    n = 0
+    for modname in sorted(ctx.py.modules):
+        if not modname.startswith('prophyc.generators'):
+            continue
+        m = ctx.py.mod(modname)
+        for f in m.all_funcs():
+            for node in f.walk():
+                tgs = []
+                if isinstance(node, ast.Assign):
+                    tgs = node.targets
+                elif isinstance(node, (ast.AugAssign, ast.AnnAssign)):
+                    tgs = [node.target]
+                elif isinstance(node, ast.Delete):
+                    tgs = node.targets
+                for t in tgs:
+                    for x in ([t] + (list(t.elts) if isinstance(t, ast.Tuple) else [])):
+                        if isinstance(x, ast.Attribute) and x.attr in model_attrs and not unparse(x.value).startswith('self'):
+                            n += 1
+                            L.bad('F11.generators-read-only', '%s|%s' % (f.fq, norm_key(f, node)), f.site(node),
+                                  'a generator writes `%s` of a model node: the node is shared with the generators that run after this '
+                                  'one (and with every file that includes its definition) - their layout facts change with the set of '
+                                  'outputs requested' % ws(unparse(x)), ws(unparse(node)))
+                if isinstance(node, ast.Call) and isinstance(node.func, ast.Name) and node.func.id == 'setattr' and node.args \
+                        and not unparse(node.args[0]).startswith('self'):
+                    n += 1
+                    L.bad('F11.generators-read-only', '%s|%s' % (f.fq, norm_key(f, node)), f.site(node), 'setattr on a model node inside a generator',
+                          ws(unparse(node)))
+    L.ok('F11.generators-read-only', 'generators', 'prophyc/generators', 'no generator writes a layout attribute of a model node (%d found)' % n)
